@@ -255,23 +255,125 @@ def nextMany (lastMod : Nat) : Sess → List Nat → Option (Sess × List Browse
 def release (cps : List CP) (ids : List Nat) : List CP :=
   cps.filter fun c => !ids.contains c.id
 
+/-! ### every mutating entry point of `AddressSpace` and of the NodeManagement services -/
+
+/-- `AddressSpace::insert(node, Some(&[(parent, ty, Inverse)]))`: node plus the reference
+parent → node; nothing at all when the node exists -/
+def insertNodeP (sp : Space) (id cls parent ty : Nat) : Space × Bool :=
+  match nodeClass? sp.nodes id with
+  | some _ => (sp, false)
+  | none => (bump { sp with nodes := sp.nodes ++ [(id, cls)], refs := addRef sp.refs parent ⟨ty, id⟩ }, true)
+
+/-- namespace-0 node ids that occur as reference targets (type definitions) live above this offset -/
+def ns0 (n : Nat) : Nat := 100000 + n
+
+/-- `AddressSpace::add_folder_with_id`: ObjectBuilder … is_folder() (HasTypeDefinition → FolderType
+i=61) … organized_by(parent) … insert -/
+def addFolder (sp : Space) (id parent : Nat) : Space × Bool :=
+  match nodeClass? sp.nodes id with
+  | some _ => (sp, false)
+  | none =>
+    (bump { sp with nodes := sp.nodes ++ [(id, 1)]
+                    refs := addRef (addRef sp.refs id ⟨40, ns0 61⟩) parent ⟨35, id⟩ }, true)
+
+/-- `AddressSpace::add_variables`: one `insert` per variable, then `update_last_modified` -/
+def addVariables (sp : Space) (parent : Nat) : List Nat → Space × List Bool
+  | [] => (bump sp, [])
+  | id :: ids =>
+    let r := insertNodeP sp id 2 parent 35
+    let rest := addVariables r.1 parent ids
+    (rest.1, r.2 :: rest.2)
+
+/-- `AddressSpace::insert_references` -/
+def insertRefs (sp : Space) (l : List (Nat × Nat × Nat)) : Space :=
+  bump { sp with refs := l.foldl (fun refs r => addRef refs r.1 ⟨r.2.2, r.2.1⟩) sp.refs }
+
+/-- status codes of the NodeManagement services (the arms reachable from the driver) -/
+inductive Svc where
+  | good | badNodeIdUnknown | badSourceNodeIdInvalid | badTargetNodeIdInvalid
+  | badReferenceTypeIdInvalid | badNodeClassInvalid | badDuplicateReferenceNotAllowed
+deriving Repr, DecidableEq
+
+/-- one mutation of the address space -/
+inductive Mut where
+  | node (id cls : Nat)                        -- insert(node, None)
+  | nodep (id cls parent ty : Nat)             -- insert(node, Some(&[(parent, ty, Inverse)]))
+  | ref (s t ty : Nat)                         -- insert_reference
+  | refs (l : List (Nat × Nat × Nat))          -- insert_references, (source, target, type)
+  | settype (id t : Nat)                       -- set_node_type(id, ns=0;i=t)
+  | folder (id parent : Nat)                   -- add_folder_with_id
+  | addvars (parent : Nat) (ids : List Nat)    -- add_variables
+  | delref (s t ty : Nat)                      -- delete_reference
+  | delnode (id : Nat) (dtr : Bool)            -- delete(id, delete_target_references)
+  | sdelnode (id : Nat) (dtr : Bool)           -- DeleteNodes service, one item
+  | sdelref (s t ty : Nat) (fwd bidir : Bool)  -- DeleteReferences service, one item
+  | saddref (s t ty : Nat) (fwd : Bool) (cls : Nat)  -- AddReferences service, one item
+deriving Repr, DecidableEq
+
+inductive MRes where
+  | unit
+  | flag (b : Bool)
+  | flags (bs : List Bool)
+  | svc (s : Svc)
+deriving Repr, DecidableEq
+
+def hasRef (sp : Space) (s t ty : Nat) : Bool := (lookupRefs sp.refs s).contains ⟨ty, t⟩
+
+/-- `bumpOnDelete = false` is the pinned source (delete paths forgot `update_last_modified`) -/
+def applyMut (bumpOnDelete : Bool) (sp : Space) : Mut → Space × MRes
+  | .node id cls => ((insertNode sp id cls).1, .flag (insertNode sp id cls).2)
+  | .nodep id cls parent ty => ((insertNodeP sp id cls parent ty).1, .flag (insertNodeP sp id cls parent ty).2)
+  | .ref s t ty => (insertRef sp s t ty, .unit)
+  | .refs l => (insertRefs sp l, .unit)
+  | .settype id t => (insertRef sp id (ns0 t) 40, .unit)
+  | .folder id parent => ((addFolder sp id parent).1, .flag (addFolder sp id parent).2)
+  | .addvars parent ids => ((addVariables sp parent ids).1, .flags (addVariables sp parent ids).2)
+  | .delref s t ty => ((deleteRefWith bumpOnDelete sp s t ty).1, .flag (deleteRefWith bumpOnDelete sp s t ty).2)
+  | .delnode id dtr =>
+    ((deleteNodeWith bumpOnDelete (sp.refs.length + 1) sp id dtr).1,
+     .flag (deleteNodeWith bumpOnDelete (sp.refs.length + 1) sp id dtr).2)
+  | .sdelnode id dtr =>
+    -- NodeManagementService::delete_node
+    if (nodeClass? sp.nodes id).isNone then (sp, .svc .badNodeIdUnknown)
+    else
+      let r := deleteNodeWith bumpOnDelete (sp.refs.length + 1) sp id dtr
+      (r.1, .svc (if r.2 then .good else .badNodeIdUnknown))
+  | .sdelref s t ty fwd bidir =>
+    -- NodeManagementService::delete_reference
+    if (nodeClass? sp.nodes s).isNone then (sp, .svc .badSourceNodeIdInvalid)
+    else if (nodeClass? sp.nodes t).isNone then (sp, .svc .badTargetNodeIdInvalid)
+    else if !isStdTy ty then (sp, .svc .badReferenceTypeIdInvalid)
+    else if bidir then
+      ((deleteRefWith bumpOnDelete (deleteRefWith bumpOnDelete sp s t ty).1 t s ty).1, .svc .good)
+    else if fwd then ((deleteRefWith bumpOnDelete sp s t ty).1, .svc .good)
+    else ((deleteRefWith bumpOnDelete sp t s ty).1, .svc .good)
+  | .saddref s t ty fwd cls =>
+    -- NodeManagementService::add_reference (s ≠ t is a driver precondition)
+    if (nodeClass? sp.nodes s).isNone then (sp, .svc .badSourceNodeIdInvalid)
+    else match nodeClass? sp.nodes t with
+      | none => (sp, .svc .badTargetNodeIdInvalid)
+      | some c =>
+        if cls = 0 then (sp, .svc .badNodeClassInvalid)
+        else if cls ≠ c then (sp, .svc .badNodeClassInvalid)
+        else if !isStdTy ty then (sp, .svc .badReferenceTypeIdInvalid)
+        else if hasRef sp s t ty then (sp, .svc .badDuplicateReferenceNotAllowed)
+        else if fwd then (insertRef sp s t ty, .svc .good)
+        else (insertRef sp t s ty, .svc .good)
+
 /-! ### the state machine the driver runs -/
 
 inductive Op where
-  | node (id cls : Nat)
-  | ref (s t ty : Nat)
-  | delref (s t ty : Nat)
-  | delnode (id : Nat) (dtr : Bool)
+  | mutate (m : Mut)
   | browse (n dir ty : Nat) (sub : Bool) (mask rmask req : Nat)
   | next (ids : List Nat)
   | release (ids : List Nat)
 deriving Repr, DecidableEq
 
 inductive Res where
-  | unit
-  | flag (b : Bool)
+  | mres (r : MRes)
   | browse (r : BrowseResult)
   | nexts (rs : List BrowseResult)
+  | unit
   | fault                          -- ServiceFault BadNothingToDo
   | panic
 deriving Repr, DecidableEq
@@ -284,13 +386,7 @@ deriving Repr, DecidableEq
 def init : St := { sp := ⟨[], [], 0⟩, se := ⟨[], 1⟩ }
 
 def stepWith (bumpOnDelete : Bool) (st : St) : Op → St × Res
-  | .node id cls => ({ st with sp := (insertNode st.sp id cls).1 }, .flag (insertNode st.sp id cls).2)
-  | .ref s t ty => ({ st with sp := insertRef st.sp s t ty }, .unit)
-  | .delref s t ty =>
-    let r := deleteRefWith bumpOnDelete st.sp s t ty; ({ st with sp := r.1 }, .flag r.2)
-  | .delnode id dtr =>
-    let r := deleteNodeWith bumpOnDelete (st.sp.refs.length + 1) st.sp id dtr
-    ({ st with sp := r.1 }, .flag r.2)
+  | .mutate m => ({ st with sp := (applyMut bumpOnDelete st.sp m).1 }, .mres (applyMut bumpOnDelete st.sp m).2)
   | .browse n dir ty sub mask rmask req =>
     match browse st.sp st.se n dir ty sub mask rmask req with
     | none => (st, .panic)
